@@ -37,10 +37,13 @@ type prefixWriter struct {
 	writer   io.Writer
 	prefixed *Prefixed
 	prefix   string
+	mutex    sync.Mutex // stdout and stderr of a command share this writer and may be written concurrently (pipelines, background jobs)
 	buff     bytes.Buffer
 }
 
 func (pw *prefixWriter) Write(p []byte) (int, error) {
+	pw.mutex.Lock()
+	defer pw.mutex.Unlock()
 	n, err := pw.buff.Write(p)
 	if err != nil {
 		return n, err
@@ -50,6 +53,8 @@ func (pw *prefixWriter) Write(p []byte) (int, error) {
 }
 
 func (pw *prefixWriter) close() error {
+	pw.mutex.Lock()
+	defer pw.mutex.Unlock()
 	return pw.writeOutputLines(true)
 }
 
